@@ -53,8 +53,8 @@ fn check_m<T: Decodable + Encodable + PartialEq + std::fmt::Debug>(o: &mut Out, 
     o.op(id, true);
     o.op(format!("c01_dec {} {}", ty, hex(&ws)), true);
 }
-/// Family "addresses": the consensus codec of `Address` (every network and kind) through the direct oracles, and its layout
-/// computed here: length byte | tag | spend | view | [payment id] | first four bytes of Keccak-256 of everything before
+/// Family "addresses": the consensus codec of `Address` (every network and kind) through the direct oracles (round trip, reported
+/// length, suffix, short-writing sink, short-reading source). The LAYOUT of that form is C12's subject (`c12.rs::forms`), not C02's.
 fn addresses(o: &mut Out, r: &mut Rng) {
     use monero::{Address, Network, PublicKey}; use monero::util::address::PaymentId;
     for net in [Network::Mainnet, Network::Testnet, Network::Stagenet] { for kind in 0..3 { for _ in 0..3 {
@@ -63,11 +63,6 @@ fn addresses(o: &mut Out, r: &mut Rng) {
         let pid: [u8; 8] = r.bytes(8).try_into().unwrap();
         let a = match kind { 0 => Address::standard(net, s, v), 1 => Address::subaddress(net, s, v), _ => Address::integrated(net, s, v, PaymentId(pid)) };
         check_m(o, r, &a, "address", "addresses", false);
-        let blob = a.as_bytes(); let mut body = blob[..1].to_vec(); body.extend_from_slice(s.as_bytes()); body.extend_from_slice(v.as_bytes()); if kind == 2 { body.extend_from_slice(&pid); }
-        let c = monero::cryptonote::hash::keccak_256(&body); body.extend_from_slice(&c[..4]);
-        let mut want = vec![body.len() as u8]; want.extend_from_slice(&body);
-        let got = monero::consensus::encode::serialize(&a);
-        o.direct(got == want, "C02: the consensus encoding of an address is length | tag | spend | view | [payment id] | checksum of all of it", format!("address {:?} kind {} {}", net, kind, hex(&blob)), hex(&got), hex(&want));
     } } }
 }
 
